@@ -141,10 +141,10 @@ func (c *channel) cancelPendingMsgs() {
 	defer c.responseMut.Unlock()
 	for msgID, router := range c.responseRouters {
 		router.deliver(response{nid: c.node.ID(), err: streamDownErr})
-		// delete the router if we are only expecting a single reply message
-		if !router.streaming {
-			delete(c.responseRouters, msgID)
-		}
+		// The stream is gone: no further reply can arrive for this message, also
+		// not for a server-stream call. Forget the router, so that the node
+		// contributes exactly this one error.
+		delete(c.responseRouters, msgID)
 	}
 }
 
@@ -153,8 +153,9 @@ func (c *channel) routeResponse(msgID uint64, resp response) {
 	defer c.responseMut.Unlock()
 	if router, ok := c.responseRouters[msgID]; ok {
 		router.deliver(resp)
-		// delete the router if we are only expecting a single reply message
-		if !router.streaming {
+		// delete the router if we are only expecting a single reply message,
+		// or if this is an error: an error ends a server stream as well
+		if !router.streaming || resp.err != nil {
 			delete(c.responseRouters, msgID)
 		}
 	}
